@@ -28,14 +28,14 @@ EXTENDS Naturals, Sequences, FiniteSets, TLC, Json, IOUtils
 
 TraceLog == ndJsonDeserialize(IOEnv.TRACE)
 Protos == 1..5
-Binds == <<1, 2, 3, 4, 5, 2, 1, 2>>      \* shape 8: a void(int) listener that itself enqueues further events
+Binds == <<1, 2, 3, 4, 5, 2, 1, 2, 2>>   \* shape 8: a void(int) listener that itself enqueues further events; shape 9: one that throws (C09)
 Accepts == <<1, 2, 2, 3, 4, 5, 2>>
 Callable == <<{1}, {2}, {3}, {4}, {5}, {2, 5}>>
 HasPayload(p) == p \in {3, 4, 5}
 
 VARIABLES lst, kind, pending, exp, proc, ncb, flt, fkd, l
 vars == <<lst, kind, pending, exp, proc, ncb, flt, fkd, l>>
-NoProc == [on |-> FALSE, mode |-> 0, shape |-> 0, seen |-> {}, hit |-> FALSE, cur |-> 0, any |-> FALSE]
+NoProc == [on |-> FALSE, mode |-> 0, shape |-> 0, seen |-> {}, hit |-> FALSE, cur |-> 0, any |-> FALSE, thrown |-> FALSE, taken |-> {}]
 Init == flt = [p \in Protos |-> <<>>] /\ fkd = <<>> /\ lst = [p \in Protos |-> <<>>] /\ kind = <<>> /\ pending = <<>> /\ exp = <<>> /\ proc = NoProc /\ ncb = 0 /\ l = 1
 E == TraceLog[l]
 Is(e) == l <= Len(TraceLog) /\ E.e = e /\ l' = l + 1
@@ -48,18 +48,24 @@ NPay(pd) == Len(SelectSeq(pd, LAMBDA e : HasPayload(e.p)))
 Ledger == E.lv = NCb(lst') /\ E.pv = NPay(pending')
 \* calls owed by one dispatch of prototype p with argument value v (prototype 1 has no arguments: the callbacks see 0):
 \* <<0, callback, p, value>> a listener runs, <<1, callback, p, 0>> the condition of a ConditionalRemover listener is asked first
+\* <<3, callback, p, value>> that listener throws: nothing of this dispatch, and nothing of the call that made it, follows (C09)
 RECURSIVE OwesOf(_,_,_,_)
 OwesOf(s, p, v, kd) == IF s = <<>> THEN <<>>
+                       ELSE IF kd[Head(s)].k = "thr" THEN << <<0, Head(s), p, v>>, <<3, Head(s), p, v>> >>
                        ELSE (IF kd[Head(s)].k = "cond" THEN << <<1, Head(s), p, 0>> >> ELSE <<>>) \o << <<0, Head(s), p, IF p = 1 THEN 0 ELSE v>> >> \o OwesOf(Tail(s), p, v, kd)
-\* one trigger of prototype p: every self-removing listener of that list counts down and detaches itself when it reaches zero
-Trig(p, ls, kd) == LET S == {n \in 1..Len(kd) : InSeq(ls[p], n) /\ kd[n].k # "plain"} IN
+RECURSIVE Upto(_,_)
+Upto(s, kd) == IF s = <<>> THEN <<>> ELSE IF kd[Head(s)].k = "thr" THEN <<Head(s)>> ELSE <<Head(s)>> \o Upto(Tail(s), kd)
+Throws(p, ls, kd) == \E i \in 1..Len(ls[p]) : kd[ls[p][i]].k = "thr"
+\* one trigger of prototype p: every self-removing listener it reaches (all, or those up to the first thrower) counts down and detaches itself at zero
+Trig(p, ls, kd) == LET S == {n \in 1..Len(kd) : InSeq(Upto(ls[p], kd), n) /\ kd[n].k \in {"ctr", "cond"}} IN
                    [ls |-> [ls EXCEPT ![p] = SelectSeq(@, LAMBDA x : x \notin S \/ kd[x].left > 1)],
                     kd |-> [n \in 1..Len(kd) |-> IF n \in S THEN [kd[n] EXCEPT !.left = @ - 1] ELSE kd[n]]]
 \* a batch of queued events dispatched one after the other
 RECURSIVE Batch(_,_,_)
 Batch(evs, ls, kd) == IF evs = <<>> THEN [exp |-> <<>>, ls |-> ls, kd |-> kd]
                       ELSE LET e == Head(evs)  t == Trig(e.p, ls, kd)  r == Batch(Tail(evs), t.ls, t.kd) IN
-                           [exp |-> OwesOf(ls[e.p], e.p, e.uid, kd) \o r.exp, ls |-> r.ls, kd |-> r.kd]
+                           IF Throws(e.p, ls, kd) THEN [exp |-> OwesOf(ls[e.p], e.p, e.uid, kd), ls |-> t.ls, kd |-> t.kd]     \* the rest of the batch is never dispatched
+                           ELSE [exp |-> OwesOf(ls[e.p], e.p, e.uid, kd) \o r.exp, ls |-> r.ls, kd |-> r.kd]
 Plain == [k |-> "plain", left |-> 0]
 Before(s, h, n) == IF InSeq(s, h) THEN SubSeq(s, 1, Pos(s, h) - 1) \o <<n>> \o SubSeq(s, Pos(s, h), Len(s)) ELSE Append(s, n)
 
@@ -67,9 +73,10 @@ Before(s, h, n) == IF InSeq(s, h) THEN SubSeq(s, 1, Pos(s, h) - 1) \o <<n>> \o S
 Add(p, where, kd) == /\ Idle /\ E.r = ncb + 1 /\ E.b = p
                      /\ lst' = [lst EXCEPT ![p] = IF where = 0 THEN Append(@, ncb + 1) ELSE IF where = 1 THEN <<ncb + 1>> \o @ ELSE Before(@, E.o, ncb + 1)]
                      /\ kind' = Append(kind, kd) /\ ncb' = ncb + 1 /\ UNCHANGED <<pending, exp, proc>> /\ Ledger
-EvAppend == Is("al") /\ Add(Binds[E.a], 0, Plain)
-EvPrepend == Is("pl") /\ Add(Binds[E.a], 1, Plain)
-EvInsert == Is("il") /\ Add(Binds[E.a], 2, Plain)
+KindOf(shape) == IF shape = 9 THEN [k |-> "thr", left |-> 0] ELSE Plain
+EvAppend == Is("al") /\ Add(Binds[E.a], 0, KindOf(E.a))
+EvPrepend == Is("pl") /\ Add(Binds[E.a], 1, KindOf(E.a))
+EvInsert == Is("il") /\ Add(Binds[E.a], 2, KindOf(E.a))
 \* CounterRemover (trigger count E.u) / ConditionalRemover
 CtrOf(c) == [k |-> "ctr", left |-> IF c < 1 THEN 1 ELSE c]
 CondK == [k |-> "cond", left |-> 2]
@@ -101,14 +108,24 @@ EvRemoveFilter == /\ Is("rf") /\ Idle /\ E.r = (IF \E p \in Protos : InSeq(flt[p
                   /\ flt' = [p \in Protos |-> Without(flt[p], E.a)] /\ UNCHANGED <<lst, kind, pending, exp, proc, ncb, fkd>>
 EvEnter == /\ Is("en") /\ exp # <<>> /\ Head(exp) = <<0, E.a, E.o, E.u>> /\ E.b = 1 /\ exp' = Tail(exp) /\ UNCHANGED <<lst, kind, pending, proc, ncb>>
 EvCondAsked == /\ Is("cq") /\ exp # <<>> /\ Head(exp) = <<1, E.a, E.o, E.u>> /\ exp' = Tail(exp) /\ UNCHANGED <<lst, kind, pending, proc, ncb>>
-EvInvokeEnd == /\ Is("ie") /\ exp = <<>> /\ ~proc.on /\ UNCHANGED <<lst, kind, pending, exp, proc, ncb>> /\ Ledger
+EvInvokeEnd == /\ Is("ie") /\ exp = <<>> /\ ~proc.on /\ ~proc.thrown /\ UNCHANGED <<lst, kind, pending, exp, proc, ncb>> /\ Ledger
+\* a listener throws: the exception reaches the caller of the invocation / dispatch / processing call (ix / px), nothing else of that call runs,
+\* the listener lists stay as the callbacks left them, a processing call discards exactly the events it had taken out of the queue
+EvThrown == /\ Is("xt") /\ exp # <<>> /\ Head(exp) = <<3, E.a, E.o, E.u>> /\ exp' = Tail(exp) /\ proc' = [proc EXCEPT !.thrown = TRUE]
+            /\ UNCHANGED <<lst, kind, pending, ncb>>
+EvInvokeExit == /\ Is("ix") /\ exp = <<>> /\ ~proc.on /\ proc.thrown /\ proc' = NoProc /\ UNCHANGED <<lst, kind, pending, exp, ncb>> /\ Ledger
+EvProcessExit == /\ Is("px") /\ proc.on /\ proc.thrown /\ exp = <<>> /\ E.a = proc.mode
+                 /\ pending' = SelectSeq(pending, LAMBDA e : e.uid \notin proc.taken)
+                 /\ proc' = NoProc /\ UNCHANGED <<lst, kind, exp, ncb>> /\ Ledger
+\* emptyQueue() at rest: true exactly when nothing is pending (also after processing calls were left by exceptions)
+EvEmptyQueue == /\ Is("eq") /\ Idle /\ ~proc.thrown /\ E.r = (IF pending = <<>> THEN 1 ELSE 0) /\ UNCHANGED <<lst, kind, pending, exp, proc, ncb>>
 \* an enqueue at top level, or by a listener while a dispatch or a processing call runs: the event goes behind everything queued
 \* (argument objects of events in flight are still alive then, so the ledger is only read at rest)
 EvEnqueue == /\ Is("nq") /\ pending' = Append(pending, [uid |-> E.u, p |-> Accepts[E.a]]) /\ UNCHANGED <<lst, kind, exp, proc, ncb>>
              /\ (Idle => Ledger)
 \* process (1) / processOne (2): the taken events are dispatched in order; processIf (3) with predicate shape E.b
 EvProcessBegin == /\ Is("pb") /\ Idle
-                  /\ IF E.a = 3 THEN proc' = [NoProc EXCEPT !.on = TRUE, !.mode = 3, !.shape = E.b] /\ UNCHANGED <<exp, pending, lst, kind>>
+                  /\ IF E.a = 3 THEN proc' = [NoProc EXCEPT !.on = TRUE, !.mode = 3, !.shape = E.b, !.taken = {pending[i].uid : i \in 1..Len(pending)}] /\ UNCHANGED <<exp, pending, lst, kind>>
                      ELSE LET batch == IF E.a = 2 THEN (IF pending = <<>> THEN <<>> ELSE <<Head(pending)>>) ELSE pending
                               r == Batch(batch, lst, kind) IN
                           /\ proc' = [NoProc EXCEPT !.on = TRUE, !.mode = E.a, !.any = batch # <<>>]
@@ -116,7 +133,7 @@ EvProcessBegin == /\ Is("pb") /\ Idle
                           /\ pending' = IF E.a = 2 THEN (IF pending = <<>> THEN <<>> ELSE Tail(pending)) ELSE <<>>
                   /\ UNCHANGED ncb
 \* the predicate is asked about event E.u as prototype E.o: callable prototype, not yet examined in this call, FIFO within its prototype
-EvPredBegin == /\ Is("qb") /\ proc.on /\ proc.mode = 3 /\ proc.cur = 0 /\ exp = <<>>
+EvPredBegin == /\ Is("qb") /\ proc.on /\ proc.mode = 3 /\ proc.cur = 0 /\ exp = <<>> /\ ~proc.thrown
                /\ \E i \in 1..Len(pending) :
                     /\ pending[i].uid = E.u /\ pending[i].p = E.o /\ E.o \in Callable[proc.shape] /\ E.u \notin proc.seen /\ E.b = 1
                     /\ \A j \in 1..(i - 1) : pending[j].p = E.o => pending[j].uid \in proc.seen
@@ -129,13 +146,14 @@ EvPredEnd == /\ Is("qe") /\ proc.on /\ proc.cur # 0
                                 /\ proc' = [proc EXCEPT !.cur = 0, !.any = TRUE]
                 ELSE UNCHANGED <<exp, pending, lst, kind>> /\ proc' = [proc EXCEPT !.cur = 0]
              /\ UNCHANGED ncb
-EvProcessEnd == /\ Is("pe") /\ proc.on /\ proc.cur = 0 /\ exp = <<>> /\ E.a = proc.mode /\ E.r = (IF proc.any THEN 1 ELSE 0)
+EvProcessEnd == /\ Is("pe") /\ proc.on /\ proc.cur = 0 /\ exp = <<>> /\ ~proc.thrown /\ E.a = proc.mode /\ E.r = (IF proc.any THEN 1 ELSE 0)
                 /\ proc' = NoProc /\ UNCHANGED <<lst, kind, pending, exp, ncb>> /\ Ledger
 EvReset == /\ Is("rs") /\ Idle /\ E.lv = 0 /\ E.pv = 0
            /\ flt' = [p \in Protos |-> <<>>] /\ fkd' = <<>> /\ lst' = [p \in Protos |-> <<>>] /\ kind' = <<>> /\ pending' = <<>> /\ exp' = <<>> /\ proc' = NoProc /\ ncb' = 0
 
 Next == \/ ((EvAppend \/ EvPrepend \/ EvInsert \/ EvAppendCtr \/ EvPrependCtr \/ EvInsertCtr \/ EvAppendCond \/ EvPrependCond \/ EvInsertCond \/ EvCondAsked \/ EvRemove
-             \/ EvInvokeBegin \/ EvEnter \/ EvInvokeEnd \/ EvEnqueue \/ EvProcessBegin \/ EvPredBegin \/ EvPredEnd \/ EvProcessEnd) /\ UNCHANGED <<flt, fkd>>)
+             \/ EvInvokeBegin \/ EvEnter \/ EvInvokeEnd \/ EvEnqueue \/ EvProcessBegin \/ EvPredBegin \/ EvPredEnd \/ EvProcessEnd
+             \/ EvThrown \/ EvInvokeExit \/ EvProcessExit \/ EvEmptyQueue) /\ UNCHANGED <<flt, fkd>>)
         \/ EvFilterAsked \/ EvAppendFilter \/ EvRemoveFilter \/ EvReset
 Report == IF TLCGet("stats").diameter - 1 = Len(TraceLog) THEN TRUE
           ELSE PrintT(<<"REJECTED", TLCGet("stats").diameter, Len(TraceLog)>>) /\ FALSE
